@@ -150,8 +150,19 @@ void placed_free(struct placed *p)
 }
 
 /* ------------------------------------------------------------------ library state */
-extern int next_backend_desc;
-extern int *log_table;
+/* Two internals are observed (and the counter also set, to reach the wrap-around) by NAME, looked up at run time:
+ * if a refactoring renames or hides them the driver still runs; the counter is then a private shadow (the model
+ * treats the numbering policy as drift, not as a violation) and the GF-table flag reads "unknown" (-1). */
+static int shadow_next, *shadow_log;
+static int *p_next = &shadow_next, **p_log = &shadow_log, have_next, have_log;
+static void bind_internals(void)
+{
+    void *s;
+    if ((s = dlsym(RTLD_DEFAULT, "next_backend_desc")) != NULL) { p_next = s; have_next = 1; }
+    if ((s = dlsym(RTLD_DEFAULT, "log_table")) != NULL) { p_log = s; have_log = 1; }
+}
+#define next_backend_desc (*p_next)
+#define GF_FLAG (have_log ? (*p_log != NULL) : -1)
 
 struct slot { int used, desc, be, k, m, hd, w, ct, live; };
 static struct slot slots[MAXN];
@@ -179,7 +190,7 @@ static int do_create(int be, int k, int m, int hd, int w, int ct, int nullargs)
     ev_call();
     d = liberasurecode_instance_create((ec_backend_id_t)be, nullargs ? NULL : &a);
     ev_int("rc", d); ev_int("l1", verif_live); ev_int("ff", verif_foreign_free - ff);
-    ev_int("gf", log_table != NULL);
+    ev_int("gf", GF_FLAG);
     ev_end();
     return d;
 }
@@ -188,7 +199,7 @@ static int do_destroy(int d)
     int rc; long l0 = verif_live, ff = verif_foreign_free;
     ev_begin("Destroy"); ev_int("d", d); ev_int("l0", l0); ev_call();
     rc = liberasurecode_instance_destroy(d);
-    ev_int("rc", rc); ev_int("l1", verif_live); ev_int("ff", verif_foreign_free - ff); ev_int("gf", log_table != NULL);
+    ev_int("rc", rc); ev_int("l1", verif_live); ev_int("ff", verif_foreign_free - ff); ev_int("gf", GF_FLAG);
     ev_end();
     return rc;
 }
@@ -568,6 +579,7 @@ int main(int argc, char **argv)
     script = argv[1]; out = argv[2];
     g_guard = argc > 3 && !strcmp(argv[3], "guard");
     pagesz = sysconf(_SC_PAGESIZE);
+    bind_internals();
     shm = mmap(NULL, sizeof *shm, PROT_READ | PROT_WRITE, MAP_SHARED | MAP_ANONYMOUS, -1, 0);
     memset((void *)shm, 0, sizeof *shm);
     snprintf(errpath, sizeof errpath, "%s.stderr", out);
